@@ -1,0 +1,12 @@
+//go:build !verif
+
+package verifhook
+
+// Enabled reports whether the instrumentation is compiled in.
+const Enabled = false
+
+// Step records one unit of work at the given site.
+func Step(site int) {}
+
+// Gauge records the maximum of v seen at the given site.
+func Gauge(site int, v int) {}
